@@ -24,6 +24,7 @@ mutual
     | cell {a b : Cell} : CellSame a b → Same (.cell a) (.cell b)
     | date (d : Int) : Same (.date d) (.date d)
     | tdelta (d : Int) : Same (.tdelta d) (.tdelta d)
+    | cdelta (d : Int) : Same (.cdelta d) (.cdelta d)
     | nat : Same .nat .nat
     | list {xs ys : List EVal} : SameL xs ys → Same (.list xs) (.list ys)
     | tuple {xs ys : List EVal} : SameL xs ys → Same (.tuple xs) (.tuple ys)
@@ -135,6 +136,11 @@ theorem eq_iff_same_aux : ∀ (n : Nat) (a b : EVal), sizeOf a ≤ n → a.keysO
       case tdelta y =>
         simp only [eq, EVal.norm, eqN, beq_iff_eq]
         exact ⟨fun e => e ▸ Same.tdelta x, fun hc => by cases hc; rfl⟩
+    | cdelta x =>
+      cases b <;> try (simp [eq, EVal.norm, eqN]; intro hc; cases hc; done)
+      case cdelta y =>
+        simp only [eq, EVal.norm, eqN, beq_iff_eq]
+        exact ⟨fun e => e ▸ Same.cdelta x, fun hc => by cases hc; rfl⟩
     | nat =>
       cases b <;> try (simp [eq, EVal.norm, eqN]; intro hc; cases hc; done)
       case nat => simp only [eq, EVal.norm, eqN]; exact ⟨fun _ => Same.nat, fun _ => trivial⟩
